@@ -3,7 +3,7 @@
 
 usage: build.py <flavour> [driver ...]      flavour: plain | asan
 Objects go to /verif/.build/<flavour>/; a lock file serialises concurrent builds."""
-import os, re, subprocess, sys, fcntl
+import os, re, subprocess, sys, fcntl, hashlib, json, glob
 
 REPO = os.environ.get("VERIF_REPO", "/repo")
 ROOT = os.path.dirname(os.path.dirname(os.path.abspath(__file__)))
@@ -21,6 +21,47 @@ def source_list():
     if not m:
         raise SystemExit("build.py: cannot find the libvata source list in src/CMakeLists.txt")
     return [w for w in m.group(1).split() if w.endswith(".cc")]
+
+def invalidate_by_content(bdir):
+    """make decides by mtime; a file restored with an old mtime (rsync -a, cp -p, tar) after an object was compiled from another
+    version of it would leave that object stale. So the content hash of every source/header of the repository and of the drivers is
+    recorded per build directory, and every object whose dependency list (.d) names a file whose content changed since the
+    previous build of this directory is deleted, whichever target is asked for now."""
+    cur = {}
+    for base, key in ((os.path.join(REPO, "include"), "R/include"), (os.path.join(REPO, "src"), "R/src"), (os.path.join(ROOT, "harness", "drv"), "D")):
+        for dp, dn, fn in os.walk(base):
+            for f in fn:
+                fp = os.path.join(dp, f)
+                try: cur[key + fp[len(base):]] = hashlib.sha1(open(fp, "rb").read()).hexdigest()
+                except OSError: pass
+    sp = os.path.join(bdir, "srcstate.json")
+    try: old = json.load(open(sp))
+    except Exception: old = None
+    if old is None:
+        if glob.glob(os.path.join(bdir, "*.o")):                 # objects of unknown provenance: start over
+            for f in glob.glob(os.path.join(bdir, "*.o")) + glob.glob(os.path.join(bdir, "*.d")): os.remove(f)
+    else:
+        changed = set(k for k in set(cur) | set(old) if cur.get(k) != old.get(k))
+        if changed:
+            def keyof(path):
+                path = os.path.normpath(path)
+                for base, key in ((os.path.join(REPO, "include"), "R/include"), (os.path.join(REPO, "src"), "R/src"), (os.path.join(ROOT, "harness", "drv"), "D")):
+                    if path.startswith(base + "/"): return key + path[len(base):]
+                return None
+            for d in glob.glob(os.path.join(bdir, "*.d")):
+                deps = open(d).read().replace("\\\n", " ").split()
+                stale = False
+                for w in deps:
+                    w = w.rstrip(":")
+                    if not w.startswith("/"): continue
+                    k = keyof(w)
+                    if k is not None:
+                        if k in changed: stale = True; break
+                    elif ("/include/vata/" in w or "/src/" in w) and not os.path.exists(w): stale = True; break     # built from another checkout
+                if stale:
+                    for f in (d[:-2] + ".o", d): 
+                        if os.path.exists(f): os.remove(f)
+    json.dump(cur, open(sp, "w"))
 
 def build(flavour, drivers):
     tag = os.environ.get("VERIF_BUILD_TAG", "")
@@ -44,6 +85,7 @@ def build(flavour, drivers):
         new = "\n".join(mk) + "\n"
         if not os.path.exists(mkpath) or open(mkpath).read() != new:
             open(mkpath, "w").write(new)
+        invalidate_by_content(bdir)
         targets = ["libvata.a"] + ["d_" + d for d in drivers]
         r = subprocess.run(["make", "-j16", "-f", "Makefile"] + targets, cwd=bdir,
                            stdout=subprocess.PIPE, stderr=subprocess.STDOUT, text=True)
